@@ -521,3 +521,69 @@ def r7_neighbour_before_repeat(ck, P):
                 ck.ok(R, where)
     if n == 0:
         ck.incomplete(R, 'no fetcher with two repeat()-mapped neighbouring coordinates found')
+
+
+def r8_rotation_tiles(ck, P):
+    """sibling agreement of the two tiled rotations: the direction in which source rows are consumed"""
+    import sympy
+    from .factors import _loops_of
+    R = ck.rule('C08-R8r', 'in the tiled 90/270-degree rotations the destination column advances by +1 per pixel of x in every tile call, while the source row advances by +stride for 90 degrees and by -stride for 270 degrees (the derivative of the source argument with respect to the tile loop variable)', floor=6)
+    u = P.units.get('pixman-fast-path.c')
+    L = _loops_of(u) if u else {}
+    n = 0
+    for fn, f in (u.functions.items() if u else []):
+        if not (fn.startswith('blt_rotated_90_') or fn.startswith('blt_rotated_270_')) or 'trivial' in fn:
+            continue
+        want_sign = 1 if '_90_' in fn else -1
+        loops = L.get(fn, [])
+        hdr_phis = {p['v'] for lp in loops for p in lp['phis'] if p['ty'] == 'i32'}
+        syms = {}
+
+        def ev(o, d=0):
+            if d > 30:
+                return None
+            if o[0] == 'c':
+                return sympy.Integer(int(o[1]))
+            if o[0] == 'a':
+                return syms.setdefault(('a', o[1]), sympy.Symbol(f.params[o[1]][0] or 'arg%d' % o[1]))
+            if o[0] != 'v':
+                return None
+            x = f.by_id[o[1]]
+            if x.op in ('sext', 'zext', 'trunc', 'bitcast', 'freeze'):
+                return ev(x.a[0], d + 1)
+            if x.op == 'phi':
+                return syms.setdefault(('v', x.i), sympy.Symbol(('x' if x.i in hdr_phis and (x.dv == 'x') else (x.dv or 'v%d' % x.i) + '_%d' % x.i)))
+            if x.op in ('add', 'sub', 'mul'):
+                a, b = ev(x.a[0], d + 1), ev(x.a[1], d + 1)
+                if a is None or b is None:
+                    return None
+                return {'add': a + b, 'sub': a - b, 'mul': a * b}[x.op]
+            if x.op == 'getelementptr':
+                base = ev(x.a[0], d + 1)
+                idx = [st for st in x.d.get('path') or [] if st[0] in ('p', 'x')]
+                if base is None or len(idx) != 1:
+                    return None
+                i = ev(idx[0][1], d + 1)
+                return None if i is None else base + i
+            return syms.setdefault(('v', x.i), sympy.Symbol('v%d' % x.i))
+
+        X = None
+        for c in f.calls():
+            if 'trivial' not in (c.callee or ''):
+                continue
+            if not any(c.bb.id in lp['blocks'] for lp in loops):
+                continue
+            dst, src = ev(c.a[0]), ev(c.a[2])
+            xs = [s_ for s_ in (dst.free_symbols if dst is not None else set()) if str(s_) == 'x']
+            if dst is None or src is None or not xs:
+                ck.incomplete(R, '%s: tile call arguments are not expressions of the tile loop variable' % fn); continue
+            X = xs[0]
+            n += 1; ck.saw(f)
+            stride = syms.get(('a', 3))
+            dd = sympy.expand(sympy.diff(dst, X)); ds = sympy.expand(sympy.diff(src, X))
+            if dd == 1 and stride is not None and sympy.expand(ds - want_sign * stride) == 0:
+                ck.ok(R, '%s: d(dst)/dx = 1, d(src)/dx = %s' % (fn, ds))
+            else:
+                ck.violation(R, fn, 'direction of the tiled source walk', '%s passes tiles whose source row changes by %s per destination pixel (destination by %s); a rotation by %s degrees needs %s%s: with more than one whole tile the tiles are taken from the source in the wrong order' % (fn, ds, dd, '90' if want_sign > 0 else '270', '+' if want_sign > 0 else '-', stride), c.loc())
+    if n == 0:
+        ck.incomplete(R, 'no tiled rotation found')
